@@ -245,7 +245,7 @@ template <class G>
 void run(const Case &c, verif_result *out) {
     Pair<G> p;
     p.eo.prop = "C06";
-    p.eo.exactWeights = true;
+    p.eo.exactWeights = c.get("mode", "exact") != "rounded";
     std::string cls = c.get("class") + ":" + c.get("label", "none");
     std::string r = p.run(c);
     StepFacts all = p.facts;
